@@ -148,7 +148,12 @@ def parse_vc(path, into=None, features=()):
             parts = line[2:].split()
             kind = parts[0]
             if kind == 'fn':
-                cur = FnContract(parts[1], parts[2], parts[3:], origin)
+                # the name may contain spaces (`<M as Trait>::f`); options are the trailing known tokens
+                rest = parts[2:]
+                opts = []
+                while rest and re.match(r'^(stub|R4|noreach|spinoff|pin=\S+|rlimit=\d+|verified-in=\w+)$', rest[-1]):
+                    opts.insert(0, rest.pop())
+                cur = FnContract(parts[1], ' '.join(rest), opts, origin)
                 if cur.key in vc.fns:
                     raise SystemExit(f'{origin}: duplicate contract for {cur.key}')
                 vc.fns[cur.key] = cur
